@@ -1259,6 +1259,12 @@ fn try_multicall() -> Result<Option<i32>> {
 }
 
 fn main() -> Result<()> {
+    // Verification hook: batch driver (compiled only with `verif-hooks`).
+    #[cfg(feature = "verif-hooks")]
+    if std::env::args().nth(1).as_deref() == Some("__verif-batch") {
+        std::process::exit(verif_batch::run());
+    }
+
     // Multi-call binary: check if invoked via a known alias name (e.g., sjq, syq)
     if let Some(exit_code) = try_multicall()? {
         std::process::exit(exit_code);
@@ -2278,6 +2284,8 @@ mod select_stats_report;
 mod text_generators;
 mod text_validate;
 mod utf8_bench;
+#[cfg(feature = "verif-hooks")]
+mod verif_batch;
 mod yaml_generators;
 mod yaml_pattern_registry;
 mod yaml_validate;
